@@ -46,6 +46,20 @@ check('C02',
       'string and are outside the oracle. Points where the declared string is non-finite are not judged.',
       'DESIGN.md 7 C02')
 
+check('C03',
+      'exhaustive enumeration of all shipped models x property-based argument points: the model\'s own '
+      'pattern/value triplets vs Richardson finite differences of the declared strings (independent evaluator), '
+      'with completeness of the pattern; plus assembled systems at generated operating points '
+      '(stock cases x {after PF init, PF solution, TDS init, mid/after disturbed run} x outages x ipadd) vs finite '
+      'differences of the assembled residual, pattern constancy, islanded-bus patch',
+      'Differential testing of symbolic derivatives against numerical derivatives of an independently evaluated '
+      'residual (model level) and of the assembled residual (system level). Sampled points; kinks and '
+      'ill-conditioned entries are skipped and counted.',
+      'Trusted: vf/oracle/pyeval.py, finite differences with stated step and tolerance (2e-5 relative). '
+      'Discrete flags and VarServices are frozen during a sweep (closed-form rule of the property). '
+      'Rows of anti-windup-pegged states are skipped.',
+      'DESIGN.md 7 C03')
+
 NOT_BUILT = 'check not built yet in this round (machinery in progress; see DESIGN.md section 10 build order)'
 ALL = ['C%02d' % i for i in range(1, 21)]
 
